@@ -138,5 +138,7 @@ def shapes(tier, max_entries=None):
             ("fef", [2], {"attrs": "none", "times": "none"}),
             ("ff", [2], {"ncoders": 2}),
             ("ff", [1, 1], {"packpos": True}),
+            ("ff", [0, 2], {}),     # a member-less folder first / last
+            ("ff", [2, 0], {}),
         ]
     return base
